@@ -10,13 +10,14 @@ VM = 'yarel::vm::Vm::'
 
 def run(rep):
     w = rep.world('dev')
-    m1(rep, w)
-    m2(rep, w)
-    m3(rep, w)
-    m4(rep, w)
-    m4b(rep, w)
-    c08.x9(rep, w)     # the active module is re-read from the frame whenever the frame list changes (unwinding out of another module)
-    c08.x7(rep, w)     # an ImportError that was delivered to a handler must not be followed by further pushes in the import handler
+    rep.guard(m1, rep, w)
+    rep.guard(m2, rep, w)
+    rep.guard(m3, rep, w)
+    rep.guard(m4, rep, w)
+    rep.guard(m4b, rep, w)
+    rep.guard(m5, rep, w)
+    rep.guard(c08.x9, rep, w)     # the active module is re-read from the frame whenever the frame list changes (unwinding out of another module)
+    rep.guard(c08.x7, rep, w)     # an ImportError that was delivered to a handler must not be followed by further pushes in the import handler
 
 
 def m1(rep, w):
@@ -222,3 +223,41 @@ def m3(rep, w):
     d = w.require_fn('yarel::vm::default_read_module_source', 'C14')
     kinds = [s['r']['v'] for b in d.blocks for s in b['s'] if s.get('r', {}).get('rv') == 'agg' and s['r'].get('adt') == 'yarel::error::ErrorKind']
     r.check('ImportError' in kinds, 'default loader reports unreadable files as ImportError', 'default loader error kinds: %s' % kinds, d.loc())
+
+
+def m5(rep, w):
+    """the registry is keyed by the path as written: the key a module is registered under is the key the import statement looks up (no
+    normalisation on one side only), entries leave the registry only in reset(), and a new module's built-in globals come from the
+    interpreter's own class store and natives, never from another module's globals"""
+    c = w.yarel
+    r = rep.rule('M5', 'registry key = the path looked up; entries are removed only by reset(); built-ins of a new module do not come from another module', floor=3)
+    mf = w.require_fn(VM + 'module', 'C14')
+    org = origins(mf)
+    keys = []
+    for bi, t in mf.calls():
+        if callee_name(t) == VM + 'new_gc_obj_string':
+            pl = op_place(t['args'][1])
+            roots = {q[0] for q in org.get(pl['l'], ())} if pl else set()
+            keys.append(roots)
+    r.check(bool(keys) and all(x == {('arg', 2)} for x in keys), 'Vm::module interns its path argument unchanged', 'Vm::module derives the registry key from %s instead of the path it was '
+            'given: start_import_impl looks the written path up, misses, and loads the module again on every import (a cycle recurses until the frame limit)' %
+            sorted(str(y) for x in keys for y in x)[:3], mf.loc())
+    # removals
+    rem = set()
+    for f in c.fns.values():
+        if not f.path.startswith(VM):
+            continue
+        fo = None
+        for bi, t in f.calls():
+            n = strip_generics(callee_name(t) or '')
+            if n in ('std::collections::HashMap::retain', 'std::collections::HashMap::remove', 'std::collections::HashMap::clear', 'std::collections::HashMap::drain') and t['args']:
+                if fo is None:
+                    fo = origins(f)
+                if 'modules' in operand_fields(f, fo, t['args'][0]):
+                    rem.add(f.path)
+    r.check(rem <= {VM + 'reset'}, 'modules leave the registry only in reset()', 'modules are removed from the registry in %s: a module dropped there is loaded and run again by the next import, '
+            'and closures it created keep pointing at the dropped module' % sorted(rem - {VM + 'reset'}))
+    ib = w.require_fn(VM + 'init_built_in_globals', 'C14')
+    readers = sorted({callee_name(t) for _, t in ib.calls() if callee_name(t) in (VM + 'global', VM + 'module')})
+    r.check(not readers, 'init_built_in_globals takes nothing from other modules', 'init_built_in_globals reads %s: a new module\'s built-ins then depend on what some other module (main) has '
+            'bound under those names' % readers, ib.loc())
